@@ -93,9 +93,12 @@ impl SubRule {
         let mut cur_index = SegPos::new(0, 0);
         // TODO(girv): `$ > *` or any broad deletion rule without context/exception should  give a warning to the user
         loop {
+            #[cfg(asca_verif)] crate::verif::tick_at(1, cur_index, &word, 0);
             self.alphas.borrow_mut().clear();
             self.variables.borrow_mut().clear();
+            #[cfg(asca_verif)] crate::verif::emit(|| crate::verif::Event::Bind { alphas: self.alphas.borrow().len(), vars: self.variables.borrow().len() });
             let (res, mut next_index) = self.input_match_at(&word, cur_index)?;
+            #[cfg(asca_verif)] crate::verif::emit(|| crate::verif::Event::Found { cur: crate::verif::pos(cur_index), caps: crate::verif::caps(&res), next: next_index.map(crate::verif::pos) });
             if !res.is_empty() {
                 let start = match res[0] {
                     MatchElement::Segment(sp, _)  => sp,
@@ -124,6 +127,7 @@ impl SubRule {
                     MatchElement::Syllable(s, _)  => SegPos::new(s, word.syllables[s].segments.len()-1),
                 };
                 if !self.match_contexts_and_exceptions(&word, start, end, true)? {
+                    #[cfg(asca_verif)] crate::verif::emit(|| crate::verif::Event::Env { ok: false });
                     if let Some(ci) = next_index { 
                         cur_index = ci;
                         continue;
@@ -132,7 +136,9 @@ impl SubRule {
                     break;
                 }
 
+                #[cfg(asca_verif)] crate::verif::emit(|| crate::verif::Event::Env { ok: true });
                 word = self.transform(&word, res, &mut next_index)?;
+                #[cfg(asca_verif)] crate::verif::emit(|| crate::verif::Event::Xform { word: word.clone(), next: next_index.map(crate::verif::pos) });
                 
                 if let Some(ci) = next_index { 
                     cur_index = ci;
@@ -159,6 +165,7 @@ impl SubRule {
         };
         let mut si = 0;
         while si < states.len() {
+            #[cfg(asca_verif)] crate::verif::tick(10);
             if !self.context_match(states, &mut si, word_rev, &mut start_pos, false, ins_match_before)? {
                 is_match = false;
                 if is_context { break; }
@@ -181,6 +188,7 @@ impl SubRule {
         };
         let mut si = 0;
         while si < states.len() {
+            #[cfg(asca_verif)] crate::verif::tick(11);
             if !self.context_match(states, &mut si, word, &mut start_pos, true, ins_match_before)? {
                 is_match = false;
                 if is_context { break; }
@@ -331,6 +339,7 @@ impl SubRule {
         pos.increment(word);
 
         while pos.syll_index == syll_index {
+            #[cfg(asca_verif)] crate::verif::tick(12);
             let back_pos = *pos;
             let back_index = *index;
             let back_alphas = self.alphas.borrow().clone();
@@ -338,6 +347,7 @@ impl SubRule {
             
             let mut m = true;
             while *index < items.len() {
+                #[cfg(asca_verif)] crate::verif::tick(13);
                 if pos.syll_index != syll_index {
                     m = false;
                     break;
@@ -387,6 +397,7 @@ impl SubRule {
         pos.increment(word);
 
         while word.in_bounds(*pos) {
+            #[cfg(asca_verif)] crate::verif::tick(14);
             let back_pos = *pos;
             let back_state = *state_index;
             let back_alphas = self.alphas.borrow().clone();
@@ -394,6 +405,7 @@ impl SubRule {
 
             let mut m = true;
             while *state_index < states.len() {
+                #[cfg(asca_verif)] crate::verif::tick(15);
                 if !self.context_match(states, state_index, word, pos, forwards, false)? {
                     m = false;
                     break;
@@ -416,6 +428,7 @@ impl SubRule {
     fn match_opt_states(&self, opt_states: &[Item], word: &Word, pos: &mut SegPos, forwards: bool) -> Result<bool, RuleRuntimeError> {
         let mut si = 0;
         while si < opt_states.len() {
+            #[cfg(asca_verif)] crate::verif::tick(16);
             if !self.context_match(opt_states, &mut si, word, pos, forwards, false)? {
                 return Ok(false)
             }
@@ -433,6 +446,7 @@ impl SubRule {
         
         let mut index = 0;
         while index < match_min {
+            #[cfg(asca_verif)] crate::verif::tick(17);
             if !self.match_opt_states(opt_states, word, pos, forwards)? {
                 *pos = back_pos;
                 *self.alphas.borrow_mut() = back_alphas;
@@ -450,6 +464,7 @@ impl SubRule {
 
         let mut m = true;
         while *state_index < states.len() {
+            #[cfg(asca_verif)] crate::verif::tick(18);
             if !self.context_match(states, state_index, word, pos, forwards, false)? {
                 m = false;
                 break;
@@ -467,10 +482,12 @@ impl SubRule {
         
         let max = match_max.unwrap_or(usize::MAX);
         while index < max {
+            #[cfg(asca_verif)] crate::verif::tick(19);
             *state_index = back_state;
             if self.match_opt_states(opt_states, word, pos, forwards)? {
                 let mut m = true;
                 while *state_index < states.len() {
+                    #[cfg(asca_verif)] crate::verif::tick(20);
                     if !self.context_match(states, state_index, word, pos, forwards, false)? {
                         m = false;
                         break;
@@ -777,6 +794,7 @@ impl SubRule {
 
                 let mut pos = SegPos::new(0, 0);
                 while res_word.in_bounds(pos) {
+                    #[cfg(asca_verif)] crate::verif::tick_at(2, pos, &res_word, 0);
                     self.alphas.borrow_mut().clear();
                     self.variables.borrow_mut().clear();
                     match self.insertion_match(&res_word, pos)? {
@@ -787,6 +805,7 @@ impl SubRule {
                             }
                             let (res, next_pos) = self.insert(&res_word, ins, is_context_after)?;
                             res_word = res;
+                            #[cfg(asca_verif)] crate::verif::emit(|| crate::verif::Event::Inserted { word: res_word.clone(), next: next_pos.map(crate::verif::pos) });
                 
                             if let Some(np) = next_pos {
                                 pos = np;
@@ -884,12 +903,14 @@ impl SubRule {
         
         // FIXME: This is scuffed
         'outer: while word.in_bounds(start_pos) {
+            #[cfg(asca_verif)] crate::verif::tick(21);
             match self.insertion_after(bef_states, word, start_pos)? {
                 Some(mut ins_pos) => {
                     let mut pos = ins_pos;
                     let mut state_index = 0;
                     start_pos = ins_pos;
                     while state_index < aft_states.len() {
+                        #[cfg(asca_verif)] crate::verif::tick(22);
                         if !self.context_match(aft_states, &mut state_index, word, &mut pos, true, false)? {
                             match bef_states.last().unwrap().kind {
                                 ParseElement::WordBound => return Ok(None),
@@ -933,6 +954,7 @@ impl SubRule {
         }
 
         while word.in_bounds(cur_pos) {
+            #[cfg(asca_verif)] crate::verif::tick(23);
             if self.context_match(states, &mut state_index, word, &mut cur_pos, true, false)? {
                 if state_index >= states.len() - 1 {
                     return Ok(Some(cur_pos))
@@ -976,6 +998,7 @@ impl SubRule {
         let mut match_begin = None;
 
         while word.in_bounds(cur_pos) {
+            #[cfg(asca_verif)] crate::verif::tick(24);
             let before_pos = cur_pos;
             if self.context_match(states, &mut state_index, word, &mut cur_pos, true, true)? {
                 if match_begin.is_none() {
@@ -1990,6 +2013,7 @@ impl SubRule {
         let mut captures: Vec<_> = Vec::new();
 
         while word.in_bounds(cur_index) {
+            #[cfg(asca_verif)] crate::verif::tick_at(3, cur_index, word, state_index);
             if self.input_match_item(&mut captures, &mut cur_index, &mut state_index, word, &self.input)? {
                 // if we have a full match
                 if state_index > self.input.len() - 1 { 
@@ -2162,6 +2186,7 @@ impl SubRule {
         pos.increment(word);
 
         while word.in_bounds(*pos) {
+            #[cfg(asca_verif)] crate::verif::tick(25);
             let back_pos = *pos;
             let back_state = *state_index;
             let back_alphas = self.alphas.borrow().clone();
@@ -2169,6 +2194,7 @@ impl SubRule {
 
             let mut m = true;
             while *state_index < states.len() {
+                #[cfg(asca_verif)] crate::verif::tick(26);
                 if !self.input_match_item(captures, pos, state_index, word, states)? {
                     m = false;
                     break;
